@@ -182,3 +182,176 @@ class ReadNewFile(Harness):
 
     def required_witnesses(self, tier):
         return ['found', 'not_found']
+
+
+# ---------------------------------------------------------------------------------------------------------------------
+# C18, the whole listing: gather_dependencies and the compilation itself, both from MIR, on one symbolic file system
+DEP_FILES = {
+    'd0/a.clib': '((include b.clib) (defun F (X) (+ X K 1)))',
+    'd1/a.clib': '((defconstant K 5) (defun F (X) (+ X K 2)))',
+    'd0/b.clib': '((defconstant K 7))',
+    'd1/b.clib': '((defconstant K 9))',
+    'd0/h.hex': 'ff0180',
+    'd1/h.hex': 'ff0280',
+    'd0/s.sexp': '(1 2)',
+    'd1/s.sexp': '(3 4)',
+}
+DEP_TEMPLATES = {
+    'nested_include': '(mod (X) (include *standard-cl-21*) (include a.clib) (F X))',
+    'embed_hex': '(mod (X) (include *standard-cl-21*) (embed-file H hex h.hex) (include a.clib) (c H (F X)))',
+    'embed_sexp': '(mod (X) (include *standard-cl-21*) (embed-file S sexp s.sexp) (c S X))',
+    'embed_bin': '(mod (X) (include *standard-cl-21*) (embed-file B bin h.hex) (c B X))',
+}
+
+
+def s_fs_read_multi(eng, m, args, fr, dty):
+    p = pb(eng, args[0], fr)
+    name = bytes(concrete(b.e) for b in p.items).decode('latin1')
+    ex = eng.env['exists'].get(name)
+    if ex is None:
+        raise PathEnd('unsupported', 'fs::read of an unexpected path ' + name)
+    ok = eng.branch_bool(ex) if not isinstance(ex, bool) else ex
+    eng.env['reads'].append((eng.env['phase'], name, ok))
+    if ok:
+        return Ok(Vec(conc_bytes(DEP_FILES[name].encode())))
+    return Err(Opaque('io::Error'))
+
+
+DEP_STUBS = [s for s in STUBS if s[1] is not s_fs_read] + [(re.compile(r'^(std::)?fs::read::<.*>$'), s_fs_read_multi)]
+
+
+class DepsListing(Harness):
+    """every file the compilation reads is in the dependency listing, and each listed name is the first match"""
+    name = 'deps_listing'
+    prop = 'C18'
+    kernel = 'deps'
+    with_clvmr = True
+    loop_bound = 200000
+    max_paths = 200
+    bigw = {'quick': 264, 'thorough': 264}
+    functions = ['compiler::preprocessor::gather_dependencies (assemble, detect_modern, parse_sexp, frontend, Preprocessor::{run, process_pp_form, recurse_dependencies, process_include, process_embed})',
+                 'clvmc::compile_clvm_text_maybe_opt and everything behind it (as under C01)',
+                 '<DefaultCompilerOpts as CompilerOpts>::read_new_file']
+    assumptions = ['two search directories d0, d1; the files a.clib (d0\'s copy includes b.clib, d1\'s does not), b.clib, h.hex, s.sexp exist in each directory according to one symbolic bit per (directory, file); the two copies of a file have different contents',
+                   'fs::read is a stub answering from those bits and logging every read with the phase (listing / compilation) it happens in; PathBuf::{from,push,clone}, Path::to_str are modelled on byte strings',
+                   'four program texts (cl21): include with a nested include, embed-file hex next to an include, embed-file sexp, embed-file bin']
+    outside = 'the classic compiler\'s own include reader; other program texts; directories other than two; compile-file'
+
+    def cases(self, tier):
+        names = ('nested_include', 'embed_hex', 'embed_sexp') if tier == 'quick' else tuple(DEP_TEMPLATES)
+        for t in names:
+            if t == 'embed_hex':
+                for pin in (True, False):           # split by one bit so the two halves run in parallel
+                    yield dict(t=t, pin={'d0/h.hex': pin})
+            else:
+                yield dict(t=t)
+
+    def files(self, case):
+        src = DEP_TEMPLATES[case['t']]
+        used = [f for f in ('a.clib', 'h.hex', 's.sexp') if f in src]
+        if 'a.clib' in used:
+            used.append('b.clib')
+        return ['%s/%s' % (d, f) for f in used for d in ('d0', 'd1')]
+
+    def sym_inputs(self, case):
+        return dict(exists={p: z3.Bool('exists_' + p.replace('/', '_').replace('.', '_')) for p in self.files(case)})
+
+    def conc_inputs(self, case, j):
+        return dict(exists={p: z3.BoolVal(bool(j['exists'][p])) for p in self.files(case)})
+
+    def inputs_json(self, case, inp, model):
+        return dict(exists={p: bool(ev(model, e)) for p, e in inp['exists'].items()})
+
+    def field_index(self, eng, name):
+        src = open(os.path.join(eng.srcroots[0], 'src/compiler/compiler.rs')).read()
+        m = re.search(r'pub struct DefaultCompilerOpts \{(.*?)\n\}', src, re.S)
+        names = re.findall(r'^\s*(?:pub\s+)?(\w+)\s*:', m.group(1), re.M)
+        return names.index(name)
+
+    def opts(self, eng):
+        from mirsym.driver import slice_of
+        o = eng.call('DefaultCompilerOpts::new', [slice_of(conc_bytes(list(b'main.clsp')))])
+        o.fields[self.field_index(eng, 'include_dirs')] = Vec([Vec(conc_bytes(b'd0')), Vec(conc_bytes(b'd1'))])
+        return Cell(o, 'rc')
+
+    def run(self, eng, case, inp):
+        from mirsym.driver import slice_of
+        from harness.convert import tls
+        from harness.pipeline import bytes_of_items
+        src = DEP_TEMPLATES[case['t']]
+        ex = dict(inp['exists'])
+        for p, v in (case.get('pin') or {}).items():
+            eng.assume(ex[p] == z3.BoolVal(v))
+        eng.env.update(stubs=DEP_STUBS, reads=[], exists=ex, phase='listing', tls=tls(True), exact_fmt=True)
+        name = slice_of(conc_bytes(list(b'main.clsp')))
+        text = slice_of(conc_bytes(list(src.encode())))
+        lst = eng.call('compiler::preprocessor::gather_dependencies', [self.opts(eng), name, text])
+        listed = None
+        if lst.variant == 'Ok':
+            listed = [bytes_of_items(eng.deref(d, None).fields[2]).decode('latin1') for d in lst.fields[0].items]
+        eng.env['phase'] = 'compilation'
+        alloc = Ref(Cell(Struct('Allocator', [])))
+        symtab = Cell(eng.call('HashMap::<String, String>::new', []))
+        comp = eng.call('clvmc::compile_clvm_text_maybe_opt', [alloc, mkbool(False), self.opts(eng), Ref(symtab), text, name, mkbool(True)])
+        return dict(listed=listed, listing_ok=lst.variant == 'Ok', comp_ok=comp.variant == 'Ok', reads=list(eng.env['reads']))
+
+    def obligations(self, eng, case, inp, out):
+        T = lambda b: z3.BoolVal(bool(b))
+        ex = inp['exists']
+        obs = []
+        read_by_compiler = sorted({n for ph, n, ok in out['reads'] if ph == 'compilation' and ok})
+        if not out['listing_ok']:
+            obs.append(('the_listing_succeeds_when_the_compilation_does', T(not out['comp_ok'])))
+            return obs
+        for n in read_by_compiler:
+            obs.append(('listed_contains_every_file_the_compilation_reads:' + n, T(n in out['listed'])))
+        for n in out['listed']:
+            if n not in ex:
+                obs.append(('listed_name_is_a_search_path_entry:' + n, T(False)))
+                continue
+            d, f = n.split('/', 1)
+            earlier = [ex['%s/%s' % (e, f)] for e in ('d0', 'd1')[:('d0', 'd1').index(d)]]
+            obs.append(('listed_name_is_the_first_match:' + n, z3.And(ex[n], *[z3.Not(e) for e in earlier])))
+            obs.append(('listed_file_is_one_the_compilation_reads_or_the_compilation_fails:' + n, T(n in read_by_compiler or not out['comp_ok'])))
+        return obs
+
+    def output_json(self, eng, case, inp, out, model):
+        return dict(listed=out['listed'], comp_ok=out['comp_ok'])
+
+    def native_inputs(self, case, j):
+        return dict(source=DEP_TEMPLATES[case['t']], dirs=['d0', 'd1'],
+                    files=[[p, DEP_FILES[p]] for p in self.files(case) if j['exists'][p]])
+
+    def native_matches(self, case, j, native, predicted):
+        nl = native.get('listed')
+        return (nl if isinstance(nl, list) else None) == predicted.get('listed') and native.get('compile', '').startswith('ok') == predicted.get('comp_ok')
+
+    def is_violation(self, case, j, native):
+        nl = native.get('listed')
+        if not isinstance(nl, list):
+            return native.get('compile', '').startswith('ok')
+        if any(f not in nl for f in native.get('influences', [])):
+            return True                       # a file whose removal changes the compilation is not listed
+        for n in nl:
+            d, f = n.split('/', 1)
+            if not j['exists'].get(n) or (d == 'd1' and j['exists'].get('d0/' + f)):
+                return True
+        return False
+
+    def oracle(self, case, j):
+        return 'every file whose removal changes the native compilation is listed; every listed name is the first match in search order'
+
+    def vectors(self, case, rnd):
+        fs = self.files(case)
+        vs = [{p: True for p in fs}, {p: p.startswith('d1') for p in fs}]
+        for v in vs:
+            for p, b in (case.get('pin') or {}).items():
+                v[p] = b
+        return [dict(exists=v) for v in vs]
+
+    def witness_classes(self, case, inp, out):
+        return [('compiles', z3.BoolVal(out['comp_ok'])), ('does_not_compile', z3.BoolVal(not out['comp_ok'])),
+                ('lists_something', z3.BoolVal(bool(out['listed'])))]
+
+    def required_witnesses(self, tier):
+        return ['compiles', 'does_not_compile', 'lists_something']
